@@ -59,6 +59,34 @@ def collections(rt):
                     (T("elemwise of partitions reversed"), (df + 1).partitions[[n - 1, 0]], None),
                     (T("head npartitions=2"), df.head(5, npartitions=2, compute=False), None),
                 ]
+            if n >= 3:
+                # the same derivations on a partition selection: the selection is pushed into the source, and the
+                # derived node has to report the *selected* partitioning at every stage
+                for selnm, sel in (("[1]", [1]), ("[0,n-1]", [0, n - 1]), ("[1:]", list(range(1, n)))):
+                    ps, U = df.partitions[sel], (lambda s, selnm=selnm: T("partitions%s then %s" % (selnm, s)))
+                    out += [
+                        (U("cumsum"), ps.cumsum(), None), (U("cumprod series"), ps.x.cumprod(), None), (U("cummax"), ps.cummax(), None),
+                        (U("shift"), ps.shift(1), None), (U("diff"), ps.x.diff(), None),
+                        (U("align[0]"), ps.align(ps.x, axis=0)[0], None), (U("align[1]"), ps.align(ps.x, axis=0)[1], None),
+                        (U("merge single-partition"), ps.merge(rt.dx.from_pandas(pd.DataFrame({"y": [0, 1, 2], "w": [5, 6, 7]}), npartitions=1), on="y"), None),
+                        (U("merge broadcast"), ps.merge(rt.dx.from_pandas(pd.DataFrame({"y": [0, 1, 2, 2], "w": [5, 6, 7, 8]}), npartitions=2), on="y", broadcast=True), None),
+                        (U("index merge broadcast"), ps.merge(rt.dx.from_pandas(pdf[["y"]].rename(columns={"y": "w"}), npartitions=2).clear_divisions(),
+                                                              left_index=True, right_index=True, broadcast=True), None),
+                        (U("repartition"), ps.repartition(npartitions=1), None), (U("set_index"), ps.set_index("x"), None),
+                        (U("elemwise"), ps + 1, None), (U("filter"), ps[ps.x > 3], None), (U("fillna"), ps.fillna(0), None),
+                        (U("groupby"), ps.groupby("y").x.sum(), None), (U("sort_values"), ps.sort_values("y"), None),
+                        (U("map_partitions"), ps.map_partitions(lambda p: p), None), (U("concat"), rt.dx.concat([ps, ps]), None),
+                        (U("head"), ps.head(2, npartitions=-1, compute=False), None), (U("tail"), ps.tail(2, compute=False), None),
+                    ]
+            # merges on the index: every combination of partition counts (a single partition is broadcast) x how
+            if nm in ("int-dups", "str"):
+                oth = pd.DataFrame({"w": range(6)}, index=[idx[i] for i in (0, 3, 4, 8, 12)] + [12 if nm == "int-dups" else "z"])   # reaches beyond df's last division
+                for onp in (1, 2):
+                    do = rt.dx.from_pandas(oth, npartitions=onp)
+                    for how in ("inner", "left", "right", "outer"):
+                        out.append((T("index merge %s with %d-partition" % (how, onp)), df.merge(do, left_index=True, right_index=True, how=how), None))
+                        out.append((T("index merge %s of %d-partition" % (how, onp)), do.merge(df, left_index=True, right_index=True, how=how), None))
+                    out.append((T("join %d-partition" % onp), df.join(do), None))
             if nm in ("int-dups", "float"):
                 out.append((T("loc slice"), df.loc[idx[2]:idx[9]], pdf.loc[idx[2]:idx[9]]))
                 out.append((T("loc element"), df.loc[idx[5]:idx[5]], pdf.loc[idx[5]:idx[5]]))
@@ -70,7 +98,20 @@ def collections(rt):
                 out.append((T("concat separated"), rt.dx.concat([df[["x"]], ds]), pd.concat([pdf[["x"]], sep])))
                 out.append((T("concat overlapping"), rt.dx.concat([df[["x"]], df[["x"]]]), None))
                 out.append((T("concat interleave"), rt.dx.concat([df[["x"]], do], interleave_partitions=True), None))
+    # input already ordered by the key across partitions, unknown divisions, a key value straddling a partition border
+    spdf = pd.DataFrame({"y": [0, 0, 1, 2, 2, 2, 2, 3, 5, 5, 6, 6, 6, 8], "x": range(14)})
+    for cuts in ([4, 9], [5, 11], [2, 7], [1, 6, 12], [3, 8, 10]):
+        b = [0] + cuts + [len(spdf)]
+        pieces = [spdf.iloc[i:j] for i, j in zip(b[:-1], b[1:])]
+        src = rt.dx.from_map(_ident, pieces, meta=spdf.iloc[:0])
+        for nm, c in (("set_index", src.set_index("y")), ("set_index npartitions=same", src.set_index("y", npartitions=len(pieces))), ("set_index npartitions=2", src.set_index("y", npartitions=2)),
+                      ("sort_values", src.sort_values("y")), ("set_index then loc", src.set_index("y").loc[2:5]), ("set_index index", src.set_index("y").index)):
+            out.append(("presorted pieces cut at %s: %s" % (cuts, nm), c, None))
     return [o for o in out if o[1] is not None]
+
+
+def _ident(p):
+    return p
 
 
 def lengths(run, rt):
@@ -130,6 +171,10 @@ def run(run):
         known = try_(lambda: e.npartitions >= 2 and e.divisions[0] is not None)
         run.count(("collection", tag), nontrivial=(known[0] == "ok" and bool(known[1])))
         vs = node_truth(tag, e, {"C06"}, "logical")
+        for st, f in (("simplified", lambda: e.simplify()), ("lowered", lambda: e.simplify().lower_completely())):
+            o = try_(f)
+            if o[0] == "ok":
+                vs += node_truth(tag, o[1], {"C06"}, st, lowered=(st == "lowered"))
         for st, fuse in (("optimized", False), ("fused", True)):
             o = try_(lambda: coll.optimize(fuse=fuse).expr)
             if o[0] == "ok":
